@@ -88,6 +88,20 @@ chk("C19", "exploration",
     "OrangeParams(A) and OrangeParams(B).", G_NOTE + " Geometries come from bundled files and the direct generator; the construction API source is added with C09.",
     "deterministic simulation: short-read/short-write stream faults + differential replay of navigation", "§5 C19", "G")
 
+chk("C08", "exploration",
+    "Clients propagate e-, e+, mu-, p of 1 keV..100 GeV through uniform fields of 1e-3..20 T (any direction; z-aligned for the exact "
+    "helix stepper) on bundled and generated geometries with the real FieldPropagator/FieldDriver and all three integrators, under "
+    "seeded FieldDriverOptions (defaults or values inside validate_input) and seeded subdivisions of the path into propagate(step) "
+    "calls from below minimum_step to many turns, starts on boundaries included. The propagator reaches the navigator only through a "
+    "recording proxy (the GTV template seam). Oracles per call: energy unchanged and unit direction; 0 < distance <= step; returned "
+    "flag == geo.is_on_boundary(); outcome is full step / looping / boundary (a short unflagged step must be a bump <= 0.1 "
+    "delta_intersection); end point on the analytic helix within max(eps_rel_max s (2 + n_substeps), delta_chord) + 3(delta_intersection "
+    "+ minimum_step); unflagged end points lie in the start volume; flagged ones lie on a reference surface, the helix before the hit "
+    "stays in the start volume up to the chord tolerance, and the post-crossing volume is the one the path enters.",
+    G_NOTE + " RZMapField is not run (no field map is generated). The accuracy model of the driver is an assumption calibrated on the "
+    "unchanged tree (largest observed error/tolerance outside the recorded finding regimes: 0.43).",
+    "deterministic simulation: seeded step subdivision and driver configuration vs analytic helix and reference locator", "§5 C08", "G8")
+
 chk("C07", "exploration",
     "k = 2..8 real threads, each building and driving its own Stepper over one shared CoreParams (step collector, calorimeter, "
     "action/step diagnostics, optional status checker), exactly one runnable under a seeded baton scheduler that may pre-empt at "
